@@ -8,6 +8,8 @@ import RbV.Model.SampledGet
 import RbV.Model.LFMulti
 import RbV.Model.PosTypes
 import RbV.Lemmas.SaisMain
+import RbV.Lemmas.SaisWidth
+import RbV.Gen.SaisWidth
 /-!
 # C03 — suffix array = sorted permutation of all suffixes; LCP; shortest unique substrings
 
@@ -349,5 +351,60 @@ theorem sais_model_sorted (t : List Nat) (hne : t ≠ []) (hmin : ∀ p, p < t.l
 set_option maxRecDepth 100000 in
 example : Sais.suffixArray [98, 97, 110, 97, 110, 97, 36, 98, 97, 110, 97, 110, 97, 36] =
     [13, 6, 12, 5, 10, 3, 8, 1, 7, 0, 11, 4, 9, 2] := by decide
+
+/-! ### Integer widths of SA-IS (`u8`/`u16`/`u32`/`u64` dispatch)
+
+The mirror keeps every text as `List Nat`.  In the Rust code the transformed text is a `Vec<T>` with `T` chosen by
+`suffix_array` from `alphabet.len() + sentinel_count`, and the reduced text of each recursion level a `Vec<S>` with `S`
+chosen by `calc_lms_pos` from `lms_substring_count`; every value stored goes through `cast(v).unwrap()`, which panics
+(does not truncate) when `v` does not fit.  The guards and the types they select are **extracted from the source text**
+(`RbV/Gen/SaisWidth.lean`, regenerated on every `./check C03`).  Below: every guard's bound fits the type of its arm;
+every value the mirror stores is below the dispatching count; hence no `cast(..).unwrap()` of the dispatch can fail —
+the `Nat` model loses nothing. -/
+
+/-- every guarded arm of both dispatches instantiates a type that holds the largest count the guard admits -/
+theorem sais_width_arms_fit :
+    (∀ a ∈ RbV.Gen.SaisWidth.transformArms, a.1 < 2 ^ a.2) ∧ (∀ a ∈ RbV.Gen.SaisWidth.reducedArms, a.1 < 2 ^ a.2) := by
+  decide
+
+/-- **`sais_reduced_width_fits`**: in the naming loop of `sort_lms_suffixes` (run on the `pos` the first `calc_pos`
+leaves, for every valid text with at least two symbols and at least one LMS position), the final `label` and every
+entry of `reduced_text` fit the type `calc_lms_pos` selects from `lms_substring_count` (a `usize`): no
+`cast(label).unwrap()` panics, no name is truncated. -/
+theorem sais_reduced_width_fits (t : List Nat) (hv : Sais.Valid t) (h2 : 2 ≤ t.length) (s : Sais.St)
+    (hs : s.pos = Sais.pos1 t) (hm : 0 < (Sais.lmsBelow (Sais.tyOf t) t.length).length)
+    (husize : (Sais.lmsBelow (Sais.tyOf t) t.length).length < 2 ^ 64)
+    (helse : RbV.Gen.SaisWidth.reducedElse = 64) :
+    let cnt := (Sais.lmsBelow (Sais.tyOf t) t.length).length
+    let bits := Sais.pick RbV.Gen.SaisWidth.reducedArms RbV.Gen.SaisWidth.reducedElse cnt
+    (Sais.naming t (Sais.tyOf t) cnt s).label < 2 ^ bits ∧ ∀ v ∈ (Sais.naming t (Sais.tyOf t) cnt s).red, v < 2 ^ bits := by
+  intro cnt bits
+  obtain ⟨h1, h3⟩ := Sais.naming_lt_count t hv h2 s hs hm
+  have hf := fun v hv => Sais.pick_fits RbV.Gen.SaisWidth.reducedArms RbV.Gen.SaisWidth.reducedElse cnt v
+    sais_width_arms_fit.2 (by rw [helse]; exact husize) hv
+  exact ⟨hf _ h1, fun v hv => hf v (h3 v hv)⟩
+
+/-- **`sais_transform_width_fits`**: every value `transform_text::<T>` stores fits the type `suffix_array` selects from
+`alphabet.len() + sentinel_count` -/
+theorem sais_transform_width_fits (t : List Nat)
+    (husize : (Sais.alphabet t).length + t.count (sentinelOf t) < 2 ^ 64)
+    (helse : RbV.Gen.SaisWidth.transformElse = 64) :
+    ∀ v ∈ Sais.transformText t, v < 2 ^ Sais.pick RbV.Gen.SaisWidth.transformArms RbV.Gen.SaisWidth.transformElse
+      ((Sais.alphabet t).length + t.count (sentinelOf t)) := by
+  intro v hv
+  exact Sais.pick_fits _ _ _ v sais_width_arms_fit.1 (by rw [helse]; exact husize) (Sais.transformText_lt t v hv)
+
+-- non-vacuity: the dispatch on a count of 300 selects 16 bits, on 70 000 32 bits; the final arms are `u64`; a valid text
+-- with two LMS positions (`2 1 2 1 0`)
+example : Sais.pick RbV.Gen.SaisWidth.reducedArms RbV.Gen.SaisWidth.reducedElse 300 = 16 ∧
+    Sais.pick RbV.Gen.SaisWidth.reducedArms RbV.Gen.SaisWidth.reducedElse 70000 = 32 ∧
+    Sais.pick RbV.Gen.SaisWidth.transformArms RbV.Gen.SaisWidth.transformElse 255 = 8 := by decide
+example : RbV.Gen.SaisWidth.reducedElse = 64 ∧ RbV.Gen.SaisWidth.transformElse = 64 := by decide
+example : ∀ v ∈ (Sais.naming [2, 1, 2, 1, 0] (Sais.tyOf [2, 1, 2, 1, 0]) 2
+    { Sais.St.new 5 with pos := Sais.pos1 [2, 1, 2, 1, 0] }).red, v < 2 ^ 8 :=
+  (sais_reduced_width_fits [2, 1, 2, 1, 0] (Sais.valid_of_validB _ (by decide)) (by decide)
+    { Sais.St.new 5 with pos := Sais.pos1 [2, 1, 2, 1, 0] } rfl (by decide) (by decide) (by decide)).2
+example : ∀ v ∈ Sais.transformText [3, 2, 3, 2, 1], v < 2 ^ 8 :=
+  sais_transform_width_fits [3, 2, 3, 2, 1] (by decide) (by decide)
 
 end RbV.Thm.C03
